@@ -155,8 +155,9 @@ klass(F, "EquivalencePathRule", bases=["Rule"], fields={"rules": Seq(Obj("Rule")
 
 
 from . import constructor as _constructor_contracts  # noqa: E402,F401  (declares DisjointUnion)
-if "ConstructorAny" not in REG.classes["DisjointUnion"].bases:
-    REG.classes["DisjointUnion"].bases.append("ConstructorAny")
+for _k in ("DisjointUnion", "Complement"):
+    if "ConstructorAny" not in REG.classes[_k].bases:
+        REG.classes[_k].bases.append("ConstructorAny")
 
 
 def _is_complement(ex, v, st):
@@ -194,6 +195,99 @@ contract(F, "EquivalencePathRule.constructor", props=["C01", "C09", "C07"], leni
                  "assert forall(lambda k=Str: (k in fixed_values) == ((k in children_of(self)[0].extra_parameters) and "
                  "not exists(lambda p=Str: p in extra_parameters and extra_parameters[p] == k)))",
                  "assert forall(lambda k=Str: implies(k in fixed_values, fixed_values[k] == 0))"]},
-         modifies=["self._constructor", "all:Obj('AbstractRule')", "all:Dict(Str, Str)", "all:Dict(Str, Int)"],
+         # the composed map and the fixed values are what the path's constructor is built from
+         call_requires={"DisjointUnion.__init__": [
+             "same(parent, caller_self.comb_class)", "children == children_of(caller_self)",
+             "not is_none(extra_parameters) and len(val(extra_parameters)) == 1 and same(val(extra_parameters)[0], caller_extra_parameters)",
+             "not is_none(fixed_values) and len(val(fixed_values)) == 1 and same(val(fixed_values)[0], caller_fixed_values)"]},
+         modifies=["self._constructor", "all:Obj('AbstractRule')", "all:Dict(Str, Str)", "all:Dict(Str, Int)", "all:Set(Str)",
+                   "all:Obj('DisjointUnion')"],
          notes="each step of the path composes the current map with the step's parameter map")
 spec_fn("is_complement_ctor", lambda ex, st, v: Val(Bool, z3.Function("is_complement_ctor", z3.IntSort(), z3.BoolSort())(v.z)))
+
+# ------------------------------------------------------------------ forest keys (C10/C02/C11): what the forest database is told
+from .forest import ForestRuleKey, Bucket  # noqa: E402
+enum("RuleBucket", ["UNDEFINED", "VERIFICATION", "EQUIV", "NORMAL", "REVERSE"], Bucket)
+provider("labeler", args=[CombClass], arg_names=["c"], returns=Int)
+provider("emptiness", args=[CombClass], arg_names=["c"], returns=Bool)
+
+
+def _label_of(ex, st, f, c):
+    return Val(Int, z3.Function("prov_labeler", z3.IntSort(), CombClass.sort(), z3.IntSort())(f.z, c.z))
+
+
+def _bucket(ex, st, name):
+    et = Bucket
+    members = REG.enums["RuleBucket"][0]
+    return Val(et, z3.Function(f"enum_{et.nm}", z3.IntSort(), et.sort())(members.index(name.v)))
+
+
+spec_fn("label_of", _label_of)
+spec_fn("bucket", _bucket)
+spec_fn("is_equiv_rule", lambda ex, st, r: Val(Bool, z3.Function("is_equiv_rule", z3.IntSort(), z3.BoolSort())(r.z)))
+for _cls, _other in (("Rule", "NORMAL"), ("ReverseRule", "REVERSE")):
+    contract(F, f"{_cls}.is_equivalence", props=["C10", "C02", "C11"], verify=False,
+             trusted_reason="strategy/constructor flags and emptiness of the children: a deterministic property of the rule (A2)",
+             params={"self": Obj(_cls), "is_empty": Opt(Fun("emptiness"))}, returns=Bool,
+             ensures=["result == is_equiv_rule(self)"], modifies=["all:Obj('AbstractRule')"]) \
+        if f"{_cls}.is_equivalence" not in REG.contracts and _cls == "Rule" else None
+    contract(F, f"{_cls}.forest_key", props=["C10", "C02", "C11"],
+             params={"self": Obj(_cls), "get_label": Fun("labeler"), "is_empty": Opt(Fun("emptiness"))},
+             returns=ForestRuleKey, may_raise=["StrategyDoesNotApply"],
+             requires=(["0 <= self.idx", "self.idx < len(rule_shifts(self.original_rule))",
+                        "len(children_of(self.original_rule)) == len(rule_shifts(self.original_rule))"]
+                       if _cls == "ReverseRule" else []),
+             ensures=[
+                 # the key carries the labels of the rule's own parent and children, in order, and the rule's own shifts
+                 "result.parent == label_of(get_label, old(self.comb_class))",
+                 "len(result.children) == len(children_of(self))",
+                 "forall(lambda i: implies(0 <= i and i < len(result.children), "
+                 "result.children[i] == label_of(get_label, children_of(self)[i])))",
+                 "result.shifts == " + ("rule_shifts(self)" if _cls == "Rule" else "last_result('ReverseRule.shifts')"),
+                 f"result.bucket == ite(is_equiv_rule(self), bucket('EQUIV'), bucket('{_other}'))"],
+             modifies=["all:Obj('AbstractRule')"],
+             notes="the forest rule database judges productivity from exactly these labels and shifts")
+
+# ------------------------------------------------------------------ C08: Rule.random_sample_object_of_size
+# the constructor draws among exactly count(n, parameters) objects, with the rule's own samplers/counters, at size n
+from .constructor import CombObj  # noqa: E402
+contract("comb_spec_searcher/strategies/constructor/base.py", "ConstructorAny.random_sample_sub_objects",
+         source="Constructor.random_sample_sub_objects", props=["C08"], verify=False,
+         trusted_reason="abstract method: DisjointUnion / CartesianProduct implementations are verified under C08",
+         params={"self": Obj("ConstructorAny"), "parent_count": Int, "subsamplers": Seq(Fun("samplers")),
+                 "subrecs": Seq(Fun("recs")), "n": Int}, returns=Seq(Opt(CombObj)), may_raise=["RuntimeError"], modifies=[])
+contract(F, "Rule.random_sample_object_of_size", props=["C08"], lenient=True,
+         params={"self": Obj("Rule"), "n": Int, "parameters": Dict(Str, Int)}, returns=CombObj,
+         requires=["n >= 0", "forall(lambda i: implies(0 <= i and i < len(self.comb_class.extra_parameters), "
+                             "self.comb_class.extra_parameters[i] in parameters))",
+                   "not is_none(self.subterms)", "not is_none(self.subrecs)", "not is_none(self.subsamplers)"],
+         may_raise=["StrategyDoesNotApply", "RuntimeError", "IndexError"],
+         call_requires={"ConstructorAny.random_sample_sub_objects": [
+             "same(self, ctor_of(caller_self))",
+             'parent_count == last_result("Rule.count_objects_of_size")',
+             'last_arg("Rule.count_objects_of_size", 1) == caller_n',
+             "n == caller_n", "subsamplers == val(caller_self.subsamplers)", "subrecs == val(caller_self.subrecs)"]},
+         pure_calls=["backward_map"],
+         modifies=["*self.terms_cache", "self._constructor", "self._children"],
+         notes="IndexError: random.choice on an empty tuple when the backward map yields nothing (A2 excludes it)")
+
+# ------------------------------------------------------------------ C09: EquivalenceRule.constructor (union case)
+# the unary rule obtained from a union with one non-empty child keeps the parameter map OF THAT CHILD
+if "EquivalenceRule" not in REG.classes:
+    klass(F, "EquivalenceRule", bases=["Rule"], fields={})
+REG.classes["EquivalenceRule"].fields.update({"child_idx": Int, "original_rule": Obj("Rule"),
+                                              "_constructor": Opt(Obj("ConstructorAny"))})
+contract(F, "EquivalenceRule.constructor", props=["C09", "C01", "C07"], lenient=True,
+         params={"self": Obj("EquivalenceRule")}, returns=Obj("ConstructorAny"),
+         isinstance_map={"Complement": _is_complement,
+                         "DisjointUnion": lambda ex, v, st: z3.Not(_is_complement(ex, v, st))},
+         requires=["0 <= self.child_idx", "self.child_idx < len(ctor_of(self.original_rule).extra_parameters)"],
+         may_raise=["NotImplementedError", "StrategyDoesNotApply", "AssertionError"], asserts="raise",
+         call_requires={"DisjointUnion.__init__": [
+             "same(parent, caller_self.comb_class)", "children == children_of(caller_self)",
+             "not is_none(extra_parameters) and len(val(extra_parameters)) == 1 and "
+             "same(val(extra_parameters)[0], ctor_of(caller_self.original_rule).extra_parameters[caller_self.child_idx])",
+             "is_none(fixed_values)"]},
+         modifies=["self._constructor", "all:Obj('AbstractRule')", "all:Dict(Str, Str)", "all:Dict(Str, Int)", "all:Set(Str)",
+                   "all:Obj('DisjointUnion')", "all:Obj('ConstructorAny')"],
+         notes="union case proved; the Complement case (reverse of a union) is lenient: only its frame")
